@@ -310,6 +310,25 @@ func proveIndex(f *ssa.Function, seq, idx ssa.Value, at ssa.Instruction) (string
 			}
 		}
 	}
+	// an induction variable that starts at a non-negative constant and only grows
+	if m, ok := inductionMin(idx); ok && m >= 0 {
+		okLo = true
+	}
+	// x[k] inside `for j := m; j < len(x); j++` with m >= k: len(x) > j >= k
+	if k, ok := ssax.ConstInt(idx); ok && k >= 0 && !okUp {
+		for _, cd := range ssax.Conds(f) {
+			if cd.Op != token.LSS {
+				continue
+			}
+			la := lenArg(cd.Y)
+			if la == nil || !lenOfSame(la, seq) {
+				continue
+			}
+			if m, isInd := inductionMin(cd.X); isInd && m >= k && !ssax.ReachableAvoiding(f, at, []ssax.Edge{{From: cd.If.Block(), Succ: 0}}, nil) {
+				okUp = true
+			}
+		}
+	}
 	// unsigned index types cannot be negative
 	if b, ok := idx.Type().Underlying().(*types.Basic); ok && b.Info()&types.IsUnsigned != 0 {
 		okLo = true
@@ -401,6 +420,33 @@ func provedNonEmptyByFlag(f *ssa.Function, seq ssa.Value, at ssa.Instruction) bo
 		}
 	}
 	return false
+}
+
+// inductionMin: v is a loop counter phi(c0, v + d) with constants c0 and d > 0 (possibly several constant entries);
+// returns the smallest start value.
+func inductionMin(v ssa.Value) (int64, bool) {
+	p, ok := ssax.Resolve(v).(*ssa.Phi)
+	if !ok {
+		return 0, false
+	}
+	min, have := int64(0), false
+	for _, e := range p.Edges {
+		if k, isC := ssax.ConstInt(e); isC {
+			if !have || k < min {
+				min, have = k, true
+			}
+			continue
+		}
+		b, isB := ssax.Resolve(e).(*ssa.BinOp)
+		if !isB || b.Op != token.ADD {
+			return 0, false
+		}
+		d, isC := ssax.ConstInt(b.Y)
+		if !isC || d <= 0 || ssax.Resolve(b.X) != ssa.Value(p) {
+			return 0, false
+		}
+	}
+	return min, have
 }
 
 func lenOfSame(a, b ssa.Value) bool {
